@@ -534,6 +534,10 @@ func runPolicy(seed int64, idx int) *scen.Outcome {
 	var probeSeq []string
 	probes, nonprobes := 0, 0
 	refuseFrom, refuseTo := time.Duration(0), time.Duration(0)
+	fallbackAt, fallbacks := -1, 0
+	if policy == rpc.LeastTimeScheduling && rng.Intn(3) == 0 {
+		fallbackAt = ncalls / 3
+	}
 	for i := 0; i < ncalls; i++ {
 		time.Sleep(spacing + time.Duration(rng.Intn(3))*time.Microsecond)
 		if refuser != "" && i == ncalls/2 {
@@ -543,11 +547,15 @@ func runPolicy(seed int64, idx int) *scen.Outcome {
 			f.down[refuser] = append(f.down[refuser], downIv{refuseFrom, refuseTo})
 			f.mu.Unlock()
 		}
+		if fallbackAt == i {
+			// routing is paused: this call is parked inside the Client and
+			// released after the pause; what it waited there is not latency
+			c.Fallback(time.Duration(30+rng.Intn(250)) * time.Millisecond)
+			fallbacks++
+		}
 		before := len(f.snapshot())
-		start := time.Now()
 		var arg uint64 = uint64(i + 1)
 		err := c.Call("m", &arg, nil)
-		elapsed := time.Since(start)
 		arr := f.snapshot()[before:]
 		var mine *arrival
 		for k := range arr {
@@ -560,6 +568,14 @@ func runPolicy(seed int64, idx int) *scen.Outcome {
 			break
 		}
 		addr := mine.addr
+		// the moment the call was scheduled is the moment it reached the
+		// transport (virtual time), and the duration the Client observes is
+		// the scripted latency of that target
+		start := f.t0.Add(mine.at)
+		elapsed := f.lat(addr, mine.at)
+		if err == rpc.ErrDial {
+			elapsed = 0
+		}
 		seq = append(seq, addr)
 		if _, ok := shadow[addr]; !ok {
 			bad("C17/policy/non-live-target", fmt.Sprintf("call %d was routed to %q which is not a live target (%v)", i, addr, addrs))
@@ -719,6 +735,7 @@ func runPolicy(seed int64, idx int) *scen.Outcome {
 	out.Stats["calls"] = int64(len(seq))
 	out.Stats["probes"] = int64(probes)
 	out.Stats["non_probe_calls"] = int64(nonprobes)
+	out.Stats["calls_parked_by_fallback"] = int64(fallbacks)
 	distinct := map[string]bool{}
 	for _, a := range seq {
 		distinct[a] = true
@@ -1052,6 +1069,10 @@ func runFailover(seed int64, idx int) *scen.Outcome {
 			if !reached && fc.form != "Ping" {
 				if wait < dialTO {
 					bad("C18/failover/fallback-failed-early", fmt.Sprintf("%s during Fallback failed with %v after %v, before DialTimeout %v (%s)", fc.form, fc.err, wait, dialTO, desc))
+				} else if fbTo+2*tickD+f.pingLat+5*time.Millisecond < fc.start+dialTO {
+					// every target was live throughout: once the pause is over
+					// (and a detection round has passed) a waiting caller is released
+					bad("C18/failover/fallback-not-released", fmt.Sprintf("%s started +%v during a Fallback pause ending at +%v waited until its DialTimeout (+%v) and failed with %v although every target was live and the pause had ended more than two detection rounds earlier (%s)", fc.form, fc.start, fbTo, fc.end, fc.err, desc))
 				}
 			} else if reached && fc.form != "Ping" && a.at < fbTo && fc.start >= fbFrom {
 				bad("C18/failover/fallback-ignored", fmt.Sprintf("%s was routed at +%v although Fallback lasts until +%v (%s)", fc.form, a.at, fbTo, desc))
